@@ -77,3 +77,40 @@ Proof.
   - unfold create_status. now rewrite H.
   - unfold delete_status. now rewrite H.
 Qed.
+
+(* ---- the read path of transactions ---- *)
+Lemma is_range_spec o : is_range o = true <-> exists k e, o = TRange k e.
+Proof. destruct o; cbn; split; try discriminate; eauto; intros (k & e & H); discriminate. Qed.
+Theorem readonly_only_ranges succ fail : is_readonly succ fail = true ->
+  forall o, In o (succ ++ fail) -> exists k e, o = TRange k e.
+Proof.
+  unfold is_readonly. rewrite andb_true_iff, !forallb_forall. intros [Hs Hf] o Hin. apply is_range_spec.
+  apply in_app_or in Hin. destruct Hin; auto.
+Qed.
+(* in particular: no operation with an empty oneof, no put, no delete ever reaches the read path, and the read path
+   creates no record *)
+Corollary readonly_no_unset succ fail : is_readonly succ fail = true -> ~ In TUnset (succ ++ fail).
+Proof. intros H Hin. destruct (readonly_only_ranges _ _ H _ Hin) as (k & e & E). discriminate. Qed.
+Corollary readonly_creates_nothing succ fail : is_readonly succ fail = true -> flat_map creates (succ ++ fail) = [].
+Proof.
+  intros H. assert (G : forall l, (forall o, In o l -> exists k e, o = TRange k e) -> flat_map creates l = []).
+  { induction l as [|o l IH]; intros Hl; [reflexivity|]. cbn [flat_map].
+    destruct (Hl o (or_introl eq_refl)) as (k & e & ->). cbn. apply IH. intros o' Ho'. apply Hl. now right. }
+  apply G. exact (readonly_only_ranges _ _ H).
+Qed.
+Theorem not_readonly_has_other succ fail : is_readonly succ fail = false ->
+  exists o, In o (succ ++ fail) /\ is_range o = false.
+Proof.
+  unfold is_readonly. intros H. apply andb_false_iff in H.
+  assert (G : forall l, forallb is_range l = false -> exists o, In o l /\ is_range o = false).
+  { induction l as [|o l IH]; cbn; [discriminate|]. destruct (is_range o) eqn:E; cbn.
+    - intros Hl. destruct (IH Hl) as (o' & Hin & Ho'). exists o'. auto.
+    - intros _. exists o. auto. }
+  destruct H as [H|H]; destruct (G _ H) as (o & Hin & Ho); exists o; split; auto; apply in_or_app; auto.
+Qed.
+
+(* ---- address schemes: an endpoint speaks TLS exactly for the schemes https and unixs ---- *)
+Theorem secure_schemes s : secure s = true <-> s = SchHttps \/ s = SchUnixs.
+Proof. destruct s; cbn; split; try discriminate; auto; intros [H|H]; discriminate. Qed.
+Theorem unix_schemes s : unix_socket s = true <-> s = SchUnix \/ s = SchUnixs.
+Proof. destruct s; cbn; split; try discriminate; auto; intros [H|H]; discriminate. Qed.
